@@ -763,4 +763,63 @@ theorem quoteIdent_head_not_digit (name k : Str) : ∀ x t, quoteIdent [name] ++
     rw [← hxt.1]
     exact identFirst_not_digit hc
 
+/-! ## optional clauses -/
+
+/-- The continuation cannot continue any printed token: it starts with a rune that is no
+identifier rune, no `"`, no `.`, no µ — e.g. a blank, `;`, `,`, `)` — or it is the end of the input. -/
+def TokEnd (k : Str) : Prop := WordEnd k ∧ NumEnd k ∧ DurEnd k
+
+theorem TokEnd.blank (k : Str) : TokEnd (' ' :: k) := ⟨.blank k, .blank k, .blank k⟩
+theorem TokEnd.semicolon (k : Str) : TokEnd (';' :: k) := ⟨.semicolon k, .semicolon k, .semicolon k⟩
+theorem TokEnd.eof : TokEnd [eofRune] := ⟨.eof, .eof, .eof⟩
+
+/-- The text of an optional clause: nothing, or something that starts with a blank. -/
+def OptText (x : Str) : Prop := x = [] ∨ ∃ y, x = ' ' :: y
+
+theorem TokEnd.opt {x k : Str} (hx : OptText x) (hk : TokEnd k) : TokEnd (x ++ k) := by
+  rcases hx with rfl | ⟨y, rfl⟩
+  · exact hk
+  · exact TokEnd.blank _
+
+theorem OptText.append {x y : Str} (hx : OptText x) (hy : OptText y) : OptText (x ++ y) := by
+  rcases hx with rfl | ⟨x', rfl⟩
+  · exact hy
+  · exact Or.inr ⟨x' ++ y, rfl⟩
+
+/-- A printed keyword is the next token. -/
+theorem nextNot_kw (T t : Token) (rest : Str) (hT : T.isKw = true) (hne : T ≠ t) (hw : WordEnd rest) :
+    NextNot (' ' :: (T.str ++ rest)) t :=
+  nextNot_piece [' '] T.str rest T [] t Gap.blank (scansAs_kw T rest hT hw) hne
+
+/-- The `INF` check before a shard duration, then `ParseDuration`, on `FormatDuration(d)`. -/
+theorem parseShardDuration_piece (s : PState) (d : Int) (k : Str) (hd0 : 0 ≤ d) (hmax : d ≤ maxInt64)
+    (hs : s.Around (' ' :: (formatDuration d ++ k))) (hk : DurEnd k) :
+    ∃ s', parseShardDuration.run s = .ok (d, s') ∧ s'.Before k := by
+  obtain ⟨s0, hb, he⟩ := hs.scanIW_eq
+  have hsc := scansAs_dur d hd0 k hk
+  obtain ⟨lx, s1, h1, t1, _, _⟩ := scanIW_piece0 s0 [' '] (formatDuration d) k _ _ Gap.blank hb hsc
+  have hp : Peeked s0 lx { s1 with n := s1.n + 1 } := ⟨s1, h1, rfl⟩
+  obtain ⟨s2, h2, b2⟩ := parseDurationTok_piece { s1 with n := s1.n + 1 } [' '] (formatDuration d) k d hd0 hmax
+    Gap.blank ⟨s0, hb, Or.inr ⟨lx, hp⟩⟩ hsc
+  refine ⟨s2, ?_, b2⟩
+  unfold parseShardDuration
+  rw [P.run_bind _ _ s lx s1 (by rw [he]; exact h1)]
+  simp only [t1, reduceCtorEq, if_false]
+  rw [P.run_bind _ _ s1 () _ (unscan_run s1)]
+  exact h2
+
+/-- `LIMIT <duration>` after FUTURE / PAST. -/
+theorem parseWriteLimit_piece (s : PState) (d : Int) (k : Str) (hd0 : 0 ≤ d) (hmax : d ≤ maxInt64)
+    (hs : s.Around (' ' :: (Token.LIMIT.str ++ ' ' :: (formatDuration d ++ k)))) (hk : DurEnd k) :
+    ∃ s', parseWriteLimit.run s = .ok (d, s') ∧ s'.Before k := by
+  obtain ⟨lx, s1, h1, t1, _, b1⟩ := scanIW_piece s [' '] Token.LIMIT.str _ .LIMIT [] Gap.blank hs
+    (scansAs_kw .LIMIT _ (by decide +kernel) (WordEnd.blank _))
+  obtain ⟨s2, h2, b2⟩ := parseDurationTok_piece s1 [' '] (formatDuration d) k d hd0 hmax Gap.blank b1.around
+    (scansAs_dur d hd0 k hk)
+  refine ⟨s2, ?_, b2⟩
+  unfold parseWriteLimit
+  rw [P.run_bind _ _ s lx s1 h1]
+  simp only [t1, if_true]
+  exact h2
+
 end InfluxQL
